@@ -227,6 +227,36 @@ func domTyp(r *gen.Rng, n int, thorough bool, o *Out) {
 			return cmpString(cmp)
 		})
 
+		// --- operands of two different types of one schema: Compare and Merge refuse them
+		if cr.Chance(8) {
+			t2 := gen.Pick(cr, typePool)
+			ref2 := sgen.Ref{Named: t2}
+			tr2 := c.typeRef(ref2)
+			w := c.gs.RootValue(cr, ref2, 3, &sgen.VOpts{Plain: true, KeySpace: 3})
+			sw := vx.Unstructured(w)
+			opX := "typ.xops " + trs + " " + s1 + " " + vx.TypeRef(tr2) + " " + sw
+			o.Emit(opX, func() string {
+				a, err1 := asTyped(c, v1, tr, true)
+				b, err2 := asTyped(c, w, tr2, true)
+				if err1 != nil || err2 != nil {
+					return "invalid"
+				}
+				out := ""
+				if cmp, err := a.Compare(b); err != nil {
+					out += "cmp=err"
+				} else {
+					out += "cmp=" + cmpString(cmp)
+				}
+				if m, err := a.Merge(b); err != nil {
+					out += " merge=err"
+				} else {
+					out += " merge=" + vx.Value(m.AsValue())
+				}
+				o.Tag("typ:cross-type")
+				return out
+			})
+		}
+
 		// --- merge
 		opM := "typ.merge " + trs + " " + vx.Flag(dupL) + " " + s1 + " " + vx.Flag(dupR) + " " + s2
 		o.Emit(opM, func() string {
